@@ -177,3 +177,58 @@ def try_(props, ids):
 
 if __name__ == '__main__' and sys.argv[1] == 'try':
     try_(sys.argv[2].split(','), sys.argv[3:])
+
+
+def refactor_eval(srcs):
+    """For each refactoring dir (patch.diff + meta.json): confirm the suite
+    passes with it, then run every claimed check; print exit codes."""
+    base = os.path.join(V, 'refactorings')
+    os.makedirs(base, exist_ok=True)
+    for src in srcs:
+        rid = os.path.basename(src.rstrip('/'))
+        d = scratch()
+        try:
+            rc, o = sh('git apply %s' % os.path.join(src, 'patch.diff'),
+                       cwd=d)
+            if rc:
+                print(rid, 'patch does not apply:', o[:200])
+                continue
+            rcs, os_ = sh('%s -m pytest -q -p no:cacheprovider '
+                          '--timeout=900 -x' % PY, cwd=d)
+            if rcs:
+                print(rid, 'REJECTED: suite fails with the refactoring')
+                continue
+            ev = tempfile.mkdtemp(prefix='fbseed_ev_')
+            res = {}
+            detail = []
+            for p in claimed():
+                rc, o = sh('%s %s/check.py %s --repo %s --evidence-dir %s' % (
+                    PY, V, p, d, ev))
+                res[p] = rc
+                if rc:
+                    lines = [l for l in o.splitlines()
+                             if l.startswith('ANALYSIS-ERROR') or
+                             l.startswith('    construct:') or
+                             l.startswith('  R')]
+                    detail.append((p, rc, lines[:6]))
+            shutil.rmtree(ev, ignore_errors=True)
+            bad = {p: r for p, r in res.items() if r}
+            print('%-8s %s' % (rid, 'SILENT (18/18 exit 0)' if not bad
+                               else 'NOISE ' + str(bad)))
+            for p, rc, lines in detail:
+                for l in lines:
+                    print('      %s: %s' % (p, l.strip()[:200]))
+            dst = os.path.join(base, rid)
+            os.makedirs(dst, exist_ok=True)
+            shutil.copy(os.path.join(src, 'patch.diff'), dst)
+            meta = json.load(open(os.path.join(src, 'meta.json')))
+            meta['suite_confirmed'] = True
+            meta['checks_exit_codes'] = res
+            json.dump(meta, open(os.path.join(dst, 'meta.json'), 'w'),
+                      indent=1)
+        finally:
+            drop(d)
+
+
+if __name__ == '__main__' and sys.argv[1] == 'refactor':
+    refactor_eval(sys.argv[2:])
